@@ -118,15 +118,15 @@ def make_peg(spec):
     False for none), gen (also the generated parser), nocut (also: cut-free grammar agrees wherever the grammar accepts),
     variants (list of extra parse-time settings: self-differential modulo parseinfo)."""
     directives = spec.get('directives', '')
-    if 'gtext' in spec:      # raw grammar text (no reference evaluator for it)
-        rules = []
+    if 'gtext' in spec:      # raw grammar text; a reference only if the documented expansion is given as well ('ref_rules')
+        rules = [(n, totuple(e)) for n, e in spec.get('ref_rules', [])]
         gtext = spec['gtext']
     else:
         rules = rules_of(spec)
         gtext = directives + render_full(rules, spec.get('decorators'))
     start = spec.get('start')
     eng = Engine(gtext, spec.get('settings'), start)
-    use_ref = spec.get('ref', {}) is not False and 'gtext' not in spec
+    use_ref = spec.get('ref', {}) is not False and ('gtext' not in spec or bool(rules))
     g = G(rules, **(spec.get('ref') or {})) if use_ref else None
     gen = GenParser(gtext, spec.get('settings'), start) if spec.get('gen') else None
     nocut = None
